@@ -141,6 +141,15 @@ Example C05_example_async :
         (RegWrite 5 12 [0x99; 0x22], mkResp (RErr 9) [])], 4%nat, Done (RErr 9)) ].
 Proof. vm_compute. reflexivity. Qed.
 
+(* read stores at most ceil(9/8) = 2 bytes of what the interface offers; write_with_zero shows the
+   closure zeros whatever the reset value is *)
+Example C05_example_read_wz :
+  case_reg false [mkResp (ROk 0%nat) [0x11; 0x22; 0x33]; mkResp (ROk 0%nat) []] []
+    5 9 [0xab; 0x01] [(OpRead, CkSet, []); (OpWriteZero, CkXor, [0xf0])]
+  = [ ([(RegRead 5 9 [0; 0], mkResp (ROk 0%nat) [0x11; 0x22; 0x33])], 0%nat, Done (ROk [0x11; 0x22]));
+      ([(RegWrite 5 9 [0xf0; 0], mkResp (ROk 0%nat) [])], 0%nat, Done (ROk [0; 0])) ].
+Proof. vm_compute. reflexivity. Qed.
+
 (* the hypothesis of C05_write is satisfiable and its conclusion non-trivial *)
 Example C05_example_hyp : length [0xab; 0x0c] = nbytes 12 /\ nbytes 1 = 1%nat /\ nbytes 9 = 2%nat /\ nbytes 128 = 16%nat.
 Proof. vm_compute. repeat split. Qed.
